@@ -352,7 +352,8 @@ def parse_sami(doc):
         for q in s['ps']:
             lines = [''.join(c for c, _ in ln) for ln in q['charlines']]
             cls = q['class']
-            ps.append({'class': cls, 'lang': class_lang.get((cls or '').lower(), cls),
+            inline = q['attrib'].get('lang')
+            ps.append({'class': cls, 'lang': inline if inline else class_lang.get((cls or '').lower(), cls),
                        'attrib': q['attrib'], 'lines': lines, 'charlines': q['charlines'],
                        'spans': q['spans'], 'unclosed': q.get('unclosed', []),
                        'stray_end_tags': q.get('stray_end_tags', []),
